@@ -615,7 +615,8 @@ class SQLDataStore(datastore.DataStore):
       # not leave a half-applied update in the open transaction.
       split_metadata = collections.defaultdict(list)
       for md in trial_metadata:
-        split_metadata[md.trial_id].append(md)
+        # '02' and '2' name the same Trial: group under the canonical id.
+        split_metadata[str(int(md.trial_id))].append(md)
       trial_names = {
           trial_id: s_resource.trial_resource(trial_id).name
           for trial_id in split_metadata
